@@ -24,9 +24,11 @@ EXTENDS Naturals, Sequences, FiniteSets, TLC, Json
 CONSTANTS Callers,       \* e.g. 1..2
           OpChoices,     \* the operations a caller may perform: subset of {"get", "goc", "force"}
           InitPresent,   \* set of BOOLEAN: is a complete entry stored beforehand
+          FailChoices,   \* set of BOOLEAN: may a caller's computation raise
           Emit
 
 NoVal == 99   \* get's "nothing cached"
+ErrVal == 98  \* the caller's own computation raised: the call raises, nothing is stored, an entry that was there stays
 Hole  == <<0, 0>>
 Overlay(f, pos, blk) ==
   [i \in 1..(IF pos > Len(f) THEN pos ELSE Len(f)) |-> IF i = pos THEN blk ELSE IF i <= Len(f) THEN f[i] ELSE Hole]
@@ -39,6 +41,7 @@ variables
   file = IF present THEN Old ELSE <<>>,    \* its content
   lock = 0,                                \* holder of the lock file (0 = free)
   op \in [Callers -> OpChoices],           \* what each caller does
+  fails \in [Callers -> FailChoices],      \* whose computation raises
   computed = IF present THEN {0} ELSE {},  \* values whose computation has completed
   ret = [c \in Callers |-> 0],             \* 0 = not returned yet, NoVal, or 100 + value
   didCompute = [c \in Callers |-> FALSE],
@@ -81,7 +84,11 @@ begin
   acq2:  await lock = 0;
          lock := self;
   comp:  didCompute[self] := TRUE;
-         computed := computed \cup {self};        \* the computation itself is complete here
+         if fails[self] then
+           goto relf;                            \* the computer raised: nothing is opened, truncated or written
+         else
+           computed := computed \cup {self};     \* the computation itself is complete here
+         end if;
   opnw:  present := TRUE;
          file := <<>>;
          disturbed := Mark(self);
@@ -92,21 +99,24 @@ begin
   cls:   skip;                                   \* close: the buffered data is on disk
   rel2:  lock := 0;
          ret[self] := 100 + self;
+         goto fin;
+  relf:  lock := 0;
+         ret[self] := ErrVal;
   fin:   skip;
 end process;
 end algorithm; *)
 \* BEGIN TRANSLATION
-VARIABLES pc, present, file, lock, op, computed, ret, didCompute, started, 
-          completeAtStart, disturbed, returnedBefore
+VARIABLES pc, present, file, lock, op, fails, computed, ret, didCompute, 
+          started, completeAtStart, disturbed, returnedBefore
 
 (* define statement *)
 Mark(w) == [c \in Callers |-> IF c # w /\ c \in started /\ ret[c] = 0 THEN TRUE ELSE disturbed[c]]
 
 VARIABLES exists, content, got
 
-vars == << pc, present, file, lock, op, computed, ret, didCompute, started, 
-           completeAtStart, disturbed, returnedBefore, exists, content, got
-        >>
+vars == << pc, present, file, lock, op, fails, computed, ret, didCompute, 
+           started, completeAtStart, disturbed, returnedBefore, exists, 
+           content, got >>
 
 ProcSet == (Callers)
 
@@ -115,6 +125,7 @@ Init == (* Global variables *)
         /\ file = IF present THEN Old ELSE <<>>
         /\ lock = 0
         /\ op \in [Callers -> OpChoices]
+        /\ fails \in [Callers -> FailChoices]
         /\ computed = IF present THEN {0} ELSE {}
         /\ ret = [c \in Callers |-> 0]
         /\ didCompute = [c \in Callers |-> FALSE]
@@ -135,13 +146,13 @@ acq1(self) == /\ pc[self] = "acq1"
               /\ completeAtStart' = [completeAtStart EXCEPT ![self] = present /\ Complete(file)]
               /\ returnedBefore' = [returnedBefore EXCEPT ![self] = \E c \in Callers : ret[c] # 0]
               /\ pc' = [pc EXCEPT ![self] = "chk"]
-              /\ UNCHANGED << present, file, op, computed, ret, didCompute, 
-                              disturbed, exists, content, got >>
+              /\ UNCHANGED << present, file, op, fails, computed, ret, 
+                              didCompute, disturbed, exists, content, got >>
 
 chk(self) == /\ pc[self] = "chk"
              /\ exists' = [exists EXCEPT ![self] = present]
              /\ pc' = [pc EXCEPT ![self] = "br"]
-             /\ UNCHANGED << present, file, lock, op, computed, ret, 
+             /\ UNCHANGED << present, file, lock, op, fails, computed, ret, 
                              didCompute, started, completeAtStart, disturbed, 
                              returnedBefore, content, got >>
 
@@ -155,14 +166,14 @@ br(self) == /\ pc[self] = "br"
                              ELSE /\ TRUE
                                   /\ UNCHANGED << ret, got >>
                        /\ pc' = [pc EXCEPT ![self] = "rel1"]
-            /\ UNCHANGED << present, file, lock, op, computed, didCompute, 
-                            started, completeAtStart, disturbed, 
+            /\ UNCHANGED << present, file, lock, op, fails, computed, 
+                            didCompute, started, completeAtStart, disturbed, 
                             returnedBefore, exists, content >>
 
 opnr(self) == /\ pc[self] = "opnr"
               /\ TRUE
               /\ pc' = [pc EXCEPT ![self] = "rd"]
-              /\ UNCHANGED << present, file, lock, op, computed, ret, 
+              /\ UNCHANGED << present, file, lock, op, fails, computed, ret, 
                               didCompute, started, completeAtStart, disturbed, 
                               returnedBefore, exists, content, got >>
 
@@ -177,8 +188,8 @@ rd(self) == /\ pc[self] = "rd"
                              ELSE /\ TRUE
                                   /\ UNCHANGED << ret, got >>
             /\ pc' = [pc EXCEPT ![self] = "rel1"]
-            /\ UNCHANGED << present, file, lock, op, computed, didCompute, 
-                            started, completeAtStart, disturbed, 
+            /\ UNCHANGED << present, file, lock, op, fails, computed, 
+                            didCompute, started, completeAtStart, disturbed, 
                             returnedBefore, exists >>
 
 rel1(self) == /\ pc[self] = "rel1"
@@ -186,23 +197,26 @@ rel1(self) == /\ pc[self] = "rel1"
               /\ IF got[self]
                     THEN /\ pc' = [pc EXCEPT ![self] = "fin"]
                     ELSE /\ pc' = [pc EXCEPT ![self] = "acq2"]
-              /\ UNCHANGED << present, file, op, computed, ret, didCompute, 
-                              started, completeAtStart, disturbed, 
+              /\ UNCHANGED << present, file, op, fails, computed, ret, 
+                              didCompute, started, completeAtStart, disturbed, 
                               returnedBefore, exists, content, got >>
 
 acq2(self) == /\ pc[self] = "acq2"
               /\ lock = 0
               /\ lock' = self
               /\ pc' = [pc EXCEPT ![self] = "comp"]
-              /\ UNCHANGED << present, file, op, computed, ret, didCompute, 
-                              started, completeAtStart, disturbed, 
+              /\ UNCHANGED << present, file, op, fails, computed, ret, 
+                              didCompute, started, completeAtStart, disturbed, 
                               returnedBefore, exists, content, got >>
 
 comp(self) == /\ pc[self] = "comp"
               /\ didCompute' = [didCompute EXCEPT ![self] = TRUE]
-              /\ computed' = (computed \cup {self})
-              /\ pc' = [pc EXCEPT ![self] = "opnw"]
-              /\ UNCHANGED << present, file, lock, op, ret, started, 
+              /\ IF fails[self]
+                    THEN /\ pc' = [pc EXCEPT ![self] = "relf"]
+                         /\ UNCHANGED computed
+                    ELSE /\ computed' = (computed \cup {self})
+                         /\ pc' = [pc EXCEPT ![self] = "opnw"]
+              /\ UNCHANGED << present, file, lock, op, fails, ret, started, 
                               completeAtStart, disturbed, returnedBefore, 
                               exists, content, got >>
 
@@ -211,30 +225,30 @@ opnw(self) == /\ pc[self] = "opnw"
               /\ file' = <<>>
               /\ disturbed' = Mark(self)
               /\ pc' = [pc EXCEPT ![self] = "wra"]
-              /\ UNCHANGED << lock, op, computed, ret, didCompute, started, 
-                              completeAtStart, returnedBefore, exists, content, 
-                              got >>
+              /\ UNCHANGED << lock, op, fails, computed, ret, didCompute, 
+                              started, completeAtStart, returnedBefore, exists, 
+                              content, got >>
 
 wra(self) == /\ pc[self] = "wra"
              /\ file' = Overlay(file, 1, <<self, 1>>)
              /\ disturbed' = Mark(self)
              /\ pc' = [pc EXCEPT ![self] = "wrb"]
-             /\ UNCHANGED << present, lock, op, computed, ret, didCompute, 
-                             started, completeAtStart, returnedBefore, exists, 
-                             content, got >>
+             /\ UNCHANGED << present, lock, op, fails, computed, ret, 
+                             didCompute, started, completeAtStart, 
+                             returnedBefore, exists, content, got >>
 
 wrb(self) == /\ pc[self] = "wrb"
              /\ file' = Overlay(file, 2, <<self, 2>>)
              /\ disturbed' = Mark(self)
              /\ pc' = [pc EXCEPT ![self] = "cls"]
-             /\ UNCHANGED << present, lock, op, computed, ret, didCompute, 
-                             started, completeAtStart, returnedBefore, exists, 
-                             content, got >>
+             /\ UNCHANGED << present, lock, op, fails, computed, ret, 
+                             didCompute, started, completeAtStart, 
+                             returnedBefore, exists, content, got >>
 
 cls(self) == /\ pc[self] = "cls"
              /\ TRUE
              /\ pc' = [pc EXCEPT ![self] = "rel2"]
-             /\ UNCHANGED << present, file, lock, op, computed, ret, 
+             /\ UNCHANGED << present, file, lock, op, fails, computed, ret, 
                              didCompute, started, completeAtStart, disturbed, 
                              returnedBefore, exists, content, got >>
 
@@ -242,21 +256,29 @@ rel2(self) == /\ pc[self] = "rel2"
               /\ lock' = 0
               /\ ret' = [ret EXCEPT ![self] = 100 + self]
               /\ pc' = [pc EXCEPT ![self] = "fin"]
-              /\ UNCHANGED << present, file, op, computed, didCompute, started, 
-                              completeAtStart, disturbed, returnedBefore, 
-                              exists, content, got >>
+              /\ UNCHANGED << present, file, op, fails, computed, didCompute, 
+                              started, completeAtStart, disturbed, 
+                              returnedBefore, exists, content, got >>
+
+relf(self) == /\ pc[self] = "relf"
+              /\ lock' = 0
+              /\ ret' = [ret EXCEPT ![self] = ErrVal]
+              /\ pc' = [pc EXCEPT ![self] = "fin"]
+              /\ UNCHANGED << present, file, op, fails, computed, didCompute, 
+                              started, completeAtStart, disturbed, 
+                              returnedBefore, exists, content, got >>
 
 fin(self) == /\ pc[self] = "fin"
              /\ TRUE
              /\ pc' = [pc EXCEPT ![self] = "Done"]
-             /\ UNCHANGED << present, file, lock, op, computed, ret, 
+             /\ UNCHANGED << present, file, lock, op, fails, computed, ret, 
                              didCompute, started, completeAtStart, disturbed, 
                              returnedBefore, exists, content, got >>
 
 caller(self) == acq1(self) \/ chk(self) \/ br(self) \/ opnr(self)
                    \/ rd(self) \/ rel1(self) \/ acq2(self) \/ comp(self)
                    \/ opnw(self) \/ wra(self) \/ wrb(self) \/ cls(self)
-                   \/ rel2(self) \/ fin(self)
+                   \/ rel2(self) \/ relf(self) \/ fin(self)
 
 (* Allow infinite stuttering to prevent deadlock on termination. *)
 Terminating == /\ \A self \in ProcSet: pc[self] = "Done"
@@ -276,13 +298,18 @@ AllDone == \A c \in Callers : pc[c] = "Done"
 \* every call returns a value produced by a complete computation for the key (get: or "nothing cached")
 ReturnsCompleted == \A c \in Callers : ret[c] # 0 =>
                        \/ (ret[c] = NoVal /\ op[c] = "get")
-                       \/ (ret[c] >= 100 /\ (ret[c] - 100) \in computed \cup {c})
+                       \/ (ret[c] >= 100 /\ (ret[c] - 100) \in computed)
+                       \/ (ret[c] = ErrVal /\ fails[c] /\ didCompute[c])      \* only its OWN computation makes a call fail
 \* at quiescence the stored entry is complete and is a computed value
 QuiescentComplete == (AllDone /\ present) => (Complete(file) /\ file[1][1] \in computed)
+\* a computation that raises stores nothing: no block of a failing caller is ever in the file ...
+FailStoresNothing == \A c \in Callers : fails[c] => \A i \in 1..Len(file) : file[i][1] # c
+\* ... and removes nothing: at quiescence an entry is stored iff some computation completed (now or beforehand)
+EntrySurvives == AllDone => (present <=> computed # {})
 \* get never computes
 GetNeverComputes == \A c \in Callers : op[c] = "get" => ~didCompute[c]
 \* the section that computes and stores is mutually exclusive
-Locked == {"chk", "br", "opnr", "rd", "rel1", "comp", "opnw", "wra", "wrb", "cls", "rel2"}
+Locked == {"chk", "br", "opnr", "rd", "rel1", "comp", "opnw", "wra", "wrb", "cls", "rel2", "relf"}
 MutualExclusion == \A a, b \in Callers : (a # b /\ pc[a] \in Locked) => pc[b] \notin Locked
 \* a non-forced call that began when a complete entry was stored and was not disturbed by another writer does not
 \* recompute (DESIGN.md section 8: the reading of "a call that starts after another call has returned")
